@@ -379,6 +379,11 @@ void do_log(int producer, int opidx, const Op &op, bool fatal)
     }
     char *file = heap_dup(kFiles[(op.c & 0xff) % kNumFiles]);
     char *func = heap_dup(kFunctions[((op.c >> 8) & 0xff) % kNumFunctions]);
+    if (P.target == "dual") {
+        // a signature of its own for every call: whatever the library remembers per signature keeps growing
+        free(func);
+        func = heap_dup(QStringLiteral("void Cls%1::fn%1(int)").arg(cid).toLatin1().constData());
+    }
     char *cat = heap_dup(kCategories[op.b % kNumCategories]);
     int flags = op.c >> 16;
     QtMsgType type = fatal ? QtFatalMsg : (QtMsgType)op.a;
@@ -414,7 +419,7 @@ void do_log(int producer, int opidx, const Op &op, bool fatal)
             lmsg.setFormattedMessage(QStringLiteral("PRE<%1>").arg(cid));
         if (flags & 2)
             lmsg.setAttribute(QStringLiteral("pre"), cid);
-        C->oth->process(lmsg);
+        ((C->oth_b && (producer & 1)) ? C->oth_b : C->oth)->process(lmsg);
     }
     std::string rs = reads_string();
     sim::ev(E_RETURN, cid, sim::wall_now(), 0, rs);
@@ -713,6 +718,7 @@ sim::SchedConfig sched_config(const Plan &P)
     sc.time_adv_pct = P.time_adv_pct;
     sc.clock_yield_pct = P.clock_yield_pct;
     sc.io_yield_pct = P.io_yield_pct;
+    sc.instr_yield_pp10k = P.instr_yield_pp10k;
     sc.max_decisions = (uint32_t)P.max_decisions;
     sc.stall_tid = P.stall_tid;
     sc.stall_from = (uint32_t)P.stall_from;
@@ -776,6 +782,9 @@ void run_child(const Plan &P, const std::string &rundir)
         C->singleton = true;
     } else if (P.target == "bare") {
         C->oth = new Oth();
+    } else if (P.target == "dual") {
+        C->oth = new Oth();
+        C->oth_b = new Oth();
     } else {
         C->logger = new Logger();
         C->oth = C->logger;
@@ -804,6 +813,15 @@ void run_child(const Plan &P, const std::string &rundir)
         }
         sim::fs_arm(fc);
         setup_c11(P);
+    } else if (P.target == "dual") {
+        // two pipelines that share nothing in the harness: a formatter and a recording sink each
+        auto pat = [](int id) {
+            return id == 100 ? QStringLiteral("%{func}|%{message}") : QString::fromUtf8(kPatternMenu[id % kNumPatterns]);
+        };
+        C->oth->append(PatternFormatterPtr::create(pat(P.cfg["pattern_a"].toInt())));
+        C->oth->append(QSharedPointer<RecSink>::create(0));
+        C->oth_b->append(PatternFormatterPtr::create(pat(P.cfg["pattern_b"].toInt())));
+        C->oth_b->append(QSharedPointer<RecSink>::create(1));
     } else {
         build_pipeline(C->oth, P.root);
         if (C->logger)
